@@ -16,12 +16,19 @@ Proof.
   cbn [map traverse]. rewrite Ha, IH. reflexivity.
 Qed.
 
+Lemma traverse_all {A C} (f : A -> option C) (h : A -> C) (l : list A) :
+  Forall (fun a => f a = Some (h a)) l -> traverse f l = Some (map h l).
+Proof.
+  induction 1 as [|a l Ha _ IH]; [reflexivity|].
+  cbn [map traverse]. rewrite Ha, IH. reflexivity.
+Qed.
+
 Lemma traverse_app {A B} (f : A -> option B) (l1 l2 : list A) r1 r2 :
   traverse f l1 = Some r1 -> traverse f l2 = Some r2 -> traverse f (l1 ++ l2) = Some (r1 ++ r2).
 Proof.
   revert r1. induction l1 as [|a l1 IH]; intros r1 H1 H2.
   - cbn in H1. inversion H1. exact H2.
-  - cbn [traverse app] in *. destruct (f a); [|discriminate].
+  - cbn [traverse List.app] in *. destruct (f a); [|discriminate].
     destruct (traverse f l1) eqn:E; [|discriminate]. inversion H1; subst.
     rewrite (IH l eq_refl H2). reflexivity.
 Qed.
@@ -50,7 +57,7 @@ Lemma span_digits_uint d s :
   (match s with EmptyString => True | String c _ => is_digit c = false end) ->
   span_digits (NilEmpty.string_of_uint d ++ s)%string = (NilEmpty.string_of_uint d, s).
 Proof.
-  intro Hs. induction d; cbn [NilEmpty.string_of_uint append span_digits];
+  intro Hs. induction d; cbn [NilEmpty.string_of_uint String.append span_digits];
     try (change (is_digit _) with true; cbv iota; rewrite IHd; reflexivity).
   destruct s as [|c r]; [reflexivity|]. cbn [span_digits]. now rewrite Hs.
 Qed.
@@ -108,7 +115,7 @@ End SegInd.
 Lemma take_words_map ws r :
   (match r with W _ :: _ => False | _ => True end) -> take_words (map W ws ++ r) = (ws, r).
 Proof.
-  intro Hr. induction ws as [|w ws IH]; cbn [map app take_words].
+  intro Hr. induction ws as [|w ws IH]; cbn [map List.app take_words].
   - destruct r as [|[s| | |] r']; try reflexivity. contradiction.
   - now rewrite IH.
 Qed.
@@ -133,11 +140,11 @@ Proof.
             parses (flat_map print_seg body ++ k) (body ++ l') rest).
   { clear Hws Hhb. induction IH as [|b body Hb _ IHb]; intros k l' rest Hk; [exact Hk|].
     cbn [forallb] in Hbody. apply andb_true_iff in Hbody. destruct Hbody as [Hb1 Hb2].
-    cbn [flat_map]. rewrite <- app_assoc. cbn [app]. apply (Hb Hb1). now apply IHb. }
+    cbn [flat_map]. rewrite <- app_assoc. cbn [List.app]. apply (Hb Hb1). now apply IHb. }
   intros k l' rest Hk f Hf.
   cbn [print_seg] in *. destruct hb.
   - (* block *)
-    rewrite <- app_assoc in *. cbn [app] in *. rewrite <- app_assoc in *. cbn [app] in *.
+    rewrite <- app_assoc in *. cbn [List.app] in *. rewrite <- app_assoc in *. cbn [List.app] in *.
     destruct f as [|f]; [cbn in Hf; lia|].
     assert (Hlen : (List.length (flat_map print_seg body ++ RB :: NL :: k) < f)%nat).
     { rewrite app_length in Hf. cbn [List.length] in Hf. lia. }
@@ -146,17 +153,17 @@ Proof.
     pose proof (Hblock (RB :: NL :: k) [] (RB :: NL :: k) (parses_rb _) f Hlen) as Hb.
     rewrite app_nil_r in Hb.
     destruct ws as [|w ws].
-    + cbn [map app parse_segs take_words]. rewrite Hb, (Hk f Hk2). reflexivity.
-    + cbn [map app parse_segs]. change (W w :: map W ws ++ LB :: NL :: flat_map print_seg body ++ RB :: NL :: k)
+    + cbn [map List.app parse_segs take_words]. rewrite Hb, (Hk f Hk2). reflexivity.
+    + cbn [map List.app parse_segs]. change (W w :: map W ws ++ LB :: NL :: flat_map print_seg body ++ RB :: NL :: k)
         with (map W (w :: ws) ++ LB :: NL :: flat_map print_seg body ++ RB :: NL :: k).
       rewrite take_words_map by exact I. rewrite Hb, (Hk f Hk2). reflexivity.
   - (* plain line *)
     destruct body; [|discriminate Hhb]. destruct ws as [|w ws]; [discriminate Hws|].
-    rewrite <- app_assoc in *. cbn [app] in *.
+    rewrite <- app_assoc in *. cbn [List.app] in *.
     destruct f as [|f]; [cbn in Hf; lia|].
     assert (Hk2 : (List.length k < f)%nat).
-    { cbn [map app List.length] in Hf. rewrite app_length in Hf. cbn [List.length] in Hf. lia. }
-    cbn [map app parse_segs].
+    { cbn [map List.app List.length] in Hf. rewrite app_length in Hf. cbn [List.length] in Hf. lia. }
+    cbn [map List.app parse_segs].
     change (W w :: map W ws ++ NL :: k) with (map W (w :: ws) ++ NL :: k).
     rewrite take_words_map by exact I. rewrite (Hk f Hk2). reflexivity.
 Qed.
@@ -166,7 +173,7 @@ Lemma print_segs_parses l : forallb seg_wf l = true ->
 Proof.
   induction l as [|s l IH]; intros Hwf k l' rest Hk; [exact Hk|].
   cbn [forallb] in Hwf. apply andb_true_iff in Hwf. destruct Hwf as [H1 H2].
-  unfold print_segs. cbn [flat_map]. rewrite <- app_assoc. cbn [app].
+  unfold print_segs. cbn [flat_map]. rewrite <- app_assoc. cbn [List.app].
   apply print_seg_parses; [exact H1|]. now apply IH.
 Qed.
 
@@ -175,4 +182,593 @@ Proof.
   intro Hwf. unfold parse_file.
   pose proof (print_segs_parses l Hwf [] [] [] parses_nil (S (List.length (print_segs l)))) as H.
   rewrite !app_nil_r in H. rewrite H; [reflexivity|lia].
+Qed.
+
+(* ------------------------------------------------------------------ sorting, association lists *)
+Lemma sort_kv_single {V} k (v : V) : sort_kv [(k, v)] = [(k, v)].
+Proof. reflexivity. Qed.
+
+Lemma has_dup_map_false_assoc {A V} (key : A -> string) (val : A -> V) (l : list A) (a : A) :
+  In a l -> has_dup (map key l) = false -> assoc (key a) (map (fun x => (key x, val x)) l) = Some (val a).
+Proof.
+  induction l as [|x l IH]; intros Hin Hd; [contradiction|].
+  cbn [map has_dup] in Hd. apply orb_false_iff in Hd. destruct Hd as [Hx Hd].
+  cbn [map assoc]. destruct Hin as [->|Hin].
+  - now rewrite String.eqb_refl.
+  - destruct (String.eqb (key a) (key x)) eqn:E; [|now apply IH].
+    exfalso. apply String.eqb_eq in E.
+    assert (existsb (String.eqb (key x)) (map key l) = true) as C; [|congruence].
+    apply existsb_exists. exists (key a). split; [now apply in_map|]. rewrite E. apply String.eqb_refl.
+Qed.
+
+(* ------------------------------------------------------------------ the structural theorem *)
+Section Structural.
+  Variables mleaf hleaf : Type.
+  Variable mleaf_name : mleaf -> string.
+  Variable mleaf_seg : mleaf -> seg.
+  Variable mleaf_json : mleaf -> json.
+  Variable hleaf_name : hleaf -> string.
+  Variable hleaf_seg : hleaf -> seg.
+  Variable hleaf_json : hleaf -> json.
+  Variable mleaf_ok : mleaf -> bool.
+  Variable hleaf_ok : hleaf -> bool.
+  Variable mleaf_parse : string -> seg -> option json.
+  Variable hleaf_parse : string -> seg -> option json.
+
+  (* the leaf equations and the shape of a leaf's segment *)
+  Hypothesis mleaf_eq : forall x, mleaf_ok x = true ->
+    mleaf_parse (mleaf_name x) (mleaf_seg x) = Some (mleaf_json x).
+  Hypothesis mleaf_shape : forall x, exists args hb body, mleaf_seg x = Seg (mleaf_name x :: args) hb body.
+  Hypothesis mleaf_not_not : forall x, mleaf_name x <> "not".
+  Hypothesis mleaf_wf : forall x, seg_wf (mleaf_seg x) = true.
+  Hypothesis hleaf_eq : forall x, hleaf_ok x = true ->
+    hleaf_parse (hleaf_name x) (hleaf_seg x) = Some (hleaf_json x).
+  Hypothesis hleaf_shape : forall x, exists args hb body, hleaf_seg x = Seg (hleaf_name x :: args) hb body.
+  Hypothesis hleaf_not_struct : forall x, hleaf_name x <> "tee" /\ hleaf_name x <> "subroute".
+  Hypothesis hleaf_obj : forall x, exists l, hleaf_json x = JObj l.
+  Hypothesis hleaf_wf : forall x, seg_wf (hleaf_seg x) = true.
+
+  Notation matcherT := (matcher mleaf).
+  Notation handlerT := (handler mleaf hleaf).
+  Notation msetT := (mset mleaf).
+  Let mname := matcher_name mleaf mleaf_name.
+  Let mseg := matcher_seg mleaf mleaf_seg.
+  Let mjson := matcher_json mleaf mleaf_name mleaf_json.
+  Let mok := matcher_ok mleaf mleaf_name mleaf_ok.
+  Let hseg := handler_seg mleaf hleaf mleaf_seg hleaf_seg.
+  Let hjson := handler_json mleaf hleaf mleaf_name mleaf_json hleaf_name hleaf_json.
+  Let hok := handler_ok mleaf hleaf mleaf_name mleaf_ok hleaf_ok.
+  Let pmset := parse_mset mleaf_parse.
+  Let phandler := parse_handler mleaf_parse hleaf_parse.
+
+  (* ---- induction principles for the nested types *)
+  Section MatcherInd.
+    Variable P : matcherT -> Prop.
+    Hypothesis Hleaf : forall x, P (MLeaf x).
+    Hypothesis Hnot : forall il ms, Forall P ms -> P (MNot il ms).
+    Fixpoint matcher_ind' (m : matcherT) : P m :=
+      match m with
+      | MLeaf x => Hleaf x
+      | MNot il ms =>
+          Hnot il ms ((fix go (l : list matcherT) : Forall P l :=
+                         match l with
+                         | [] => Forall_nil _
+                         | x :: r => Forall_cons _ (matcher_ind' x) (go r)
+                         end) ms)
+      end.
+  End MatcherInd.
+
+  Section HandlerInd.
+    Variable P : handlerT -> Prop.
+    Hypothesis Hleaf : forall x, P (HLeaf x).
+    Hypothesis Htee : forall hs, Forall P hs -> P (HTee hs).
+    Hypothesis Hsub : forall mt sets routes,
+      Forall (fun r => Forall P (snd r)) routes -> P (HSubroute mt sets routes).
+    Fixpoint handler_ind' (h : handlerT) : P h :=
+      match h with
+      | HLeaf x => Hleaf x
+      | HTee hs =>
+          Htee hs ((fix go (l : list handlerT) : Forall P l :=
+                      match l with
+                      | [] => Forall_nil _
+                      | x :: r => Forall_cons _ (handler_ind' x) (go r)
+                      end) hs)
+      | HSubroute mt sets routes =>
+          Hsub mt sets routes
+            ((fix gor (l : list (list string * list handlerT)) : Forall (fun r => Forall P (snd r)) l :=
+                match l with
+                | [] => Forall_nil _
+                | (refs, hs) :: r =>
+                    Forall_cons (refs, hs)
+                      ((fix go (l : list handlerT) : Forall P l :=
+                          match l with
+                          | [] => Forall_nil _
+                          | x :: r => Forall_cons _ (handler_ind' x) (go r)
+                          end) hs)
+                      (gor r)
+                end) routes)
+      end.
+  End HandlerInd.
+
+  (* ---- matchers *)
+  (* one entry of a matcher set, as both branches of parse_mset treat it *)
+  Definition pmatcher (e : seg) : option json :=
+    if seg_name e =? "not" then option_map not_json (pmset e) else mleaf_parse (seg_name e) e.
+
+  Lemma pmset_inline w a rest hb body :
+    pmset (Seg (w :: a :: rest) hb body) =
+    (j <- pmatcher (Seg (a :: rest) hb body) ;; Some [(a, j)]).
+  Proof.
+    unfold pmatcher, pmset. cbn [seg_name seg_words]. cbn [parse_mset tl].
+    destruct (a =? "not"); reflexivity.
+  Qed.
+
+  Lemma pmset_block w hb body :
+    pmset (Seg [w] hb body) =
+    if has_dup (map seg_name body) then None else
+    (ms <- traverse (fun e => j <- pmatcher e ;; Some (seg_name e, j)) body ;; Some (sort_kv ms)).
+  Proof. reflexivity. Qed.
+
+  Lemma set_seg_name w il entries : seg_name (set_seg w il entries) = w.
+  Proof.
+    unfold set_seg. destruct il; [|reflexivity].
+    destruct entries as [|[ws hb body] [|? ?]]; reflexivity.
+  Qed.
+
+  Lemma mseg_name m : seg_name (mseg m) = mname m.
+  Proof.
+    destruct m as [x|il ms]; cbn.
+    - destruct (mleaf_shape x) as (args & hb & body & E). now rewrite E.
+    - apply set_seg_name.
+  Qed.
+
+  Lemma mseg_shape m : exists args hb body, mseg m = Seg (mname m :: args) hb body.
+  Proof.
+    destruct m as [x|il ms].
+    - apply mleaf_shape.
+    - cbn. unfold set_seg. destruct il; [|now eexists _, _, _].
+      destruct (map _ ms) as [|[ws hb body] [|? ?]]; now eexists _, _, _.
+  Qed.
+
+  (* the printed set parses to the sorted (name, json) list *)
+  Lemma pmset_set_seg w il (ms : list matcherT) :
+    Forall (fun m => pmatcher (mseg m) = Some (mjson m)) ms ->
+    has_dup (map mname ms) = false ->
+    pmset (set_seg w il (map mseg ms)) = Some (sort_kv (map (fun m => (mname m, mjson m)) ms)).
+  Proof.
+    intros Hall Hdup.
+    assert (Hblock : pmset (Seg [w] true (map mseg ms)) =
+                     Some (sort_kv (map (fun m => (mname m, mjson m)) ms))).
+    { rewrite pmset_block. rewrite map_map.
+      rewrite (map_ext _ mname) by (intro; apply mseg_name). rewrite Hdup.
+      rewrite (traverse_map _ mseg (fun m => (mname m, mjson m))); [reflexivity|].
+      eapply Forall_impl; [|exact Hall]. cbv beta. intros m Hm. rewrite Hm. cbn [obind].
+      now rewrite mseg_name. }
+    unfold set_seg. destruct il; [|exact Hblock].
+    destruct ms as [|m [|m2 ms]]; [exact Hblock| |cbn [map] in *; destruct (mseg m); exact Hblock].
+    cbn [map]. destruct (mseg_shape m) as (args & hb & body & E). rewrite E.
+    rewrite pmset_inline. rewrite <- E. inversion Hall as [|? ? Hm _]; subst. rewrite Hm. reflexivity.
+  Qed.
+
+  Lemma matcher_correct m : mok m = true -> pmatcher (mseg m) = Some (mjson m).
+  Proof.
+    induction m as [x|il ms IH] using matcher_ind'; intro Hok.
+    - unfold pmatcher. rewrite mseg_name. cbn.
+      destruct (mleaf_name x =? "not") eqn:E; [apply String.eqb_eq in E; now apply mleaf_not_not in E|].
+      now apply mleaf_eq.
+    - cbn in Hok. apply andb_true_iff in Hok. destruct Hok as [Hd Hall].
+      apply negb_true_iff in Hd.
+      unfold pmatcher. rewrite mseg_name. cbn [mname matcher_name]. cbn [String.eqb Ascii.eqb Bool.eqb].
+      cbv iota. cbn [mseg matcher_seg]. fold mseg.
+      rewrite (pmset_set_seg "not" il ms); [reflexivity| |exact Hd].
+      apply forallb_Forall in Hall. rewrite Forall_forall in *. intros m Hin. apply IH; [exact Hin|].
+      now apply Hall.
+  Qed.
+
+  Lemma mset_correct (s : msetT) : mset_ok mleaf mleaf_name mleaf_ok s = true ->
+    let seg := mset_seg mleaf mleaf_seg s in
+    seg_name seg = fst (fst s) /\ mset_nonempty seg = true /\
+    pmset seg = Some (match mset_json mleaf mleaf_name mleaf_json (snd s) with JObj l => l | _ => [] end).
+  Proof.
+    destruct s as [[n il] ms]. cbn [mset_ok mset_seg fst snd]. intro Hok.
+    repeat (apply andb_true_iff in Hok; destruct Hok as [Hok ?]).
+    split; [apply set_seg_name|]. split.
+    - destruct ms as [|m ms]; [discriminate|]. unfold set_seg. cbn [map].
+      fold mseg. destruct il; [|reflexivity]. destruct ms; [|cbn [map]; destruct (mseg m); reflexivity].
+      cbn [map]. destruct (mseg_shape m) as (args & hb & body & E). now rewrite E.
+    - fold mseg. rewrite pmset_set_seg; [reflexivity| |now apply negb_true_iff].
+      match goal with H : forallb _ ms = true |- _ => apply forallb_Forall in H; rename H into Hall end.
+      eapply Forall_impl; [|exact Hall]. intros m. apply matcher_correct.
+  Qed.
+
+  (* ---- route blocks: ParseCaddyfileNestedRoutes *)
+  Notation routeT := (list string * list handlerT)%type.
+  Let lookup := lookup_set mleaf mleaf_name mleaf_json.
+  Let msetseg := mset_seg mleaf mleaf_seg.
+  Let msetok := mset_ok mleaf mleaf_name mleaf_ok.
+
+  Definition block_body (mt : option dur) (sets : list msetT) (routes : list routeT) : list seg :=
+    mt_segs mt ++ map msetseg sets ++ map (route_seg mleaf hleaf mleaf_seg hleaf_seg) routes.
+  Definition block_entries (mt : option dur) (sets : list msetT) (routes : list routeT) : list entry :=
+    (match mt with Some d => [ETimeout (dur_ns d)] | None => [] end) ++
+    map (fun s => EMset (fst (fst s)) (msetseg s)) sets ++
+    map (fun r => ERoute (fst r) (map hjson (snd r))) routes.
+  Definition block_routes_json (sets : list msetT) (routes : list routeT) : list json :=
+    map (fun r => route_json (map (lookup sets) (fst r)) (map hjson (snd r))) routes.
+
+  Lemma is_mset_name_first n : is_mset_name n = true -> exists c r, n = String "@" (String c r).
+  Proof.
+    destruct n as [|a [|c r]]; try discriminate.
+    - cbn. destruct a as [[] [] [] [] [] [] [] []]; discriminate.
+    - cbn. intro H. exists c, r.
+      destruct a as [[] [] [] [] [] [] [] []]; try discriminate. reflexivity.
+  Qed.
+
+  Lemma entries_correct mt sets routes :
+    mt_ok mt = true -> forallb msetok sets = true ->
+    Forall (fun r : routeT => Forall (fun h => phandler (hseg h) = Some (hjson h)) (snd r)) routes ->
+    traverse (parse_entry phandler) (block_body mt sets routes) = Some (block_entries mt sets routes).
+  Proof.
+    intros Hmt Hsets Hroutes. unfold block_body, block_entries.
+    apply traverse_app; [|apply traverse_app].
+    - destruct mt as [d|]; [|reflexivity]. cbn [mt_segs traverse parse_entry].
+      cbn [is_mset_name String.eqb Ascii.eqb Bool.eqb]. cbv iota.
+      rewrite parse_print_dur by exact Hmt. reflexivity.
+    - apply traverse_map. apply forallb_Forall in Hsets. eapply Forall_impl; [|exact Hsets].
+      intros s Hs. destruct (mset_correct s Hs) as (Hn & _ & _).
+      fold msetseg in Hn. destruct (msetseg s) as [ws hb body] eqn:E.
+      destruct s as [[n il] ms]. cbn [fst snd] in *.
+      unfold seg_name in Hn. cbn [seg_words] in Hn. destruct ws as [|w args]; cbn in Hn.
+      + subst n. cbn in Hs. discriminate Hs.
+      + subst w. cbn [parse_entry].
+        replace (is_mset_name n) with true; [reflexivity|].
+        cbn in Hs. repeat (apply andb_true_iff in Hs; destruct Hs as [Hs ?]). now rewrite Hs.
+    - apply traverse_map. eapply Forall_impl; [|exact Hroutes].
+      intros [refs hs] Hr. cbn [fst snd route_seg parse_entry] in *.
+      cbn [is_mset_name String.eqb Ascii.eqb Bool.eqb]. cbv iota.
+      fold hseg. rewrite (traverse_map _ hseg hjson _ Hr). reflexivity.
+  Qed.
+
+  Lemma entry_msets_app a b : entry_msets (a ++ b) = entry_msets a ++ entry_msets b.
+  Proof. induction a as [|[] a IH]; cbn; rewrite ?IH; reflexivity. Qed.
+  Lemma entry_timeouts_app a b : entry_timeouts (a ++ b) = entry_timeouts a ++ entry_timeouts b.
+  Proof. induction a as [|[] a IH]; cbn; rewrite ?IH; reflexivity. Qed.
+  Lemma entry_routes_app a b : entry_routes (a ++ b) = entry_routes a ++ entry_routes b.
+  Proof. induction a as [|[] a IH]; cbn; rewrite ?IH; reflexivity. Qed.
+
+  Lemma em_msets {A} (f : A -> string) (g : A -> seg) l :
+    entry_msets (map (fun s => EMset (f s) (g s)) l) = map (fun s => (f s, g s)) l.
+  Proof. induction l; cbn; congruence. Qed.
+  Lemma em_routes {A} (f : A -> list string) (g : A -> list json) l :
+    entry_msets (map (fun s => ERoute (f s) (g s)) l) = [].
+  Proof. induction l; cbn; congruence. Qed.
+  Lemma et_msets {A} (f : A -> string) (g : A -> seg) l :
+    entry_timeouts (map (fun s => EMset (f s) (g s)) l) = [].
+  Proof. induction l; cbn; congruence. Qed.
+  Lemma et_routes {A} (f : A -> list string) (g : A -> list json) l :
+    entry_timeouts (map (fun s => ERoute (f s) (g s)) l) = [].
+  Proof. induction l; cbn; congruence. Qed.
+  Lemma er_msets {A} (f : A -> string) (g : A -> seg) l :
+    entry_routes (map (fun s => EMset (f s) (g s)) l) = [].
+  Proof. induction l; cbn; congruence. Qed.
+  Lemma er_routes {A} (f : A -> list string) (g : A -> list json) l :
+    entry_routes (map (fun s => ERoute (f s) (g s)) l) = map (fun s => (f s, g s)) l.
+  Proof. induction l; cbn; congruence. Qed.
+
+  Lemma block_entries_msets mt sets routes :
+    entry_msets (block_entries mt sets routes) = map (fun s => (fst (fst s), msetseg s)) sets.
+  Proof.
+    unfold block_entries. rewrite !entry_msets_app, em_msets, em_routes, app_nil_r.
+    destruct mt; reflexivity.
+  Qed.
+  Lemma block_entries_timeouts mt sets routes :
+    entry_timeouts (block_entries mt sets routes) = match mt with Some d => [dur_ns d] | None => [] end.
+  Proof.
+    unfold block_entries. rewrite !entry_timeouts_app, et_msets, et_routes.
+    destruct mt; reflexivity.
+  Qed.
+  Lemma block_entries_routes mt sets routes :
+    entry_routes (block_entries mt sets routes) = map (fun r : routeT => (fst r, map hjson (snd r))) routes.
+  Proof.
+    unfold block_entries. rewrite !entry_routes_app, er_msets, er_routes.
+    destruct mt; reflexivity.
+  Qed.
+
+  Definition sets_res (sets : list msetT) : list (string * json) :=
+    map (fun s => (fst (fst s), mset_json mleaf mleaf_name mleaf_json (snd s))) sets.
+
+  Lemma lookup_found sets ref :
+    existsb (String.eqb ref) (set_names mleaf sets) = true ->
+    assoc ref (sets_res sets) = Some (lookup sets ref).
+  Proof.
+    intro H. unfold lookup, lookup_set, sets_res, set_names in *.
+    induction sets as [|[[n il] ms] sets IH]; [discriminate|].
+    cbn [map existsb assoc fst snd] in *. destruct (String.eqb ref n); [reflexivity|].
+    cbn [orb] in H. exact (IH H).
+  Qed.
+
+  Lemma assemble_correct mt sets routes :
+    has_dup (set_names mleaf sets) = false -> forallb msetok sets = true ->
+    forallb (fun r : routeT => refs_ok mleaf sets (fst r)) routes = true ->
+    assemble mleaf_parse (block_entries mt sets routes) = Some (block_routes_json sets routes, mt_ns mt).
+  Proof.
+    intros Hdup Hsets Hrefs. unfold assemble.
+    rewrite block_entries_msets, block_entries_timeouts, block_entries_routes.
+    rewrite map_map. cbn [fst]. fold (set_names mleaf sets). rewrite Hdup.
+    replace (match match mt with Some d => [dur_ns d] | None => [] end with
+             | [] => Some 0%Z | [z] => Some z | _ :: _ :: _ => None end) with (Some (mt_ns mt))
+      by (destruct mt; reflexivity).
+    cbn [obind].
+    rewrite (traverse_map _ (fun s : msetT => (fst (fst s), msetseg s))
+               (fun s => (fst (fst s), mset_json mleaf mleaf_name mleaf_json (snd s)))).
+    2:{ apply forallb_Forall in Hsets. eapply Forall_impl; [|exact Hsets]. intros s Hs.
+        destruct (mset_correct s Hs) as (_ & Hne & Hp). fold msetseg in Hne, Hp.
+        rewrite Hne. fold pmset. rewrite Hp. reflexivity. }
+    cbn [obind]. fold (sets_res sets).
+    rewrite (traverse_map _ (fun r : routeT => (fst r, map hjson (snd r)))
+               (fun r => route_json (map (lookup sets) (fst r)) (map hjson (snd r)))); [reflexivity|].
+    apply forallb_Forall in Hrefs. eapply Forall_impl; [|exact Hrefs]. intros [refs hs] Hr.
+    cbn [fst snd] in *.
+    rewrite (traverse_all _ (lookup sets)).
+    - reflexivity.
+    - unfold refs_ok in Hr. apply forallb_Forall in Hr. eapply Forall_impl; [|exact Hr].
+      intros ref. apply lookup_found.
+  Qed.
+
+  (* ---- handlers *)
+  Lemma set_inline_obj key name l : set_inline key name (JObj l) = Some (set_inline_t key name (JObj l)).
+  Proof. reflexivity. Qed.
+
+  Definition routes_ok (sets : list msetT) (routes : list routeT) : bool :=
+    forallb (fun r => match r with (refs, hs) => refs_ok mleaf sets refs && forallb hok hs end) routes.
+
+  Lemma routes_ok_split sets routes : routes_ok sets routes = true ->
+    forallb (fun r : routeT => refs_ok mleaf sets (fst r)) routes = true /\
+    Forall (fun r : routeT => Forall (fun h => hok h = true) (snd r)) routes.
+  Proof.
+    unfold routes_ok. induction routes as [|[refs hs] routes IH]; intro H; [split; [reflexivity|constructor]|].
+    cbn [forallb] in H. apply andb_true_iff in H. destruct H as [H1 H2].
+    apply andb_true_iff in H1. destruct H1 as [H1 H3]. destruct (IH H2) as [I1 I2].
+    split; [cbn [forallb fst]; now rewrite H1, I1|]. constructor; [now apply forallb_Forall|exact I2].
+  Qed.
+
+  Lemma block_steps mt sets routes :
+    mt_ok mt = true -> has_dup (set_names mleaf sets) = false -> forallb msetok sets = true ->
+    routes_ok sets routes = true ->
+    Forall (fun r : routeT => Forall (fun h => hok h = true -> phandler (hseg h) = Some (hjson h)) (snd r)) routes ->
+    traverse (parse_entry phandler) (block_body mt sets routes) = Some (block_entries mt sets routes) /\
+    assemble mleaf_parse (block_entries mt sets routes) = Some (block_routes_json sets routes, mt_ns mt).
+  Proof.
+    intros Hmt Hdup Hsets Hroutes IH. destruct (routes_ok_split _ _ Hroutes) as [Hrefs Hhs].
+    split; [|now apply assemble_correct].
+    apply entries_correct; [exact Hmt|exact Hsets|].
+    clear Hroutes Hrefs. induction routes as [|r routes IHr]; constructor.
+    - inversion IH; subst. inversion Hhs; subst. rewrite Forall_forall in *. intros h Hin. auto.
+    - inversion IH; subst. inversion Hhs; subst. auto.
+  Qed.
+
+  Lemma block_correct mt sets routes :
+    mt_ok mt = true -> has_dup (set_names mleaf sets) = false -> forallb msetok sets = true ->
+    routes_ok sets routes = true ->
+    Forall (fun r : routeT => Forall (fun h => hok h = true -> phandler (hseg h) = Some (hjson h)) (snd r)) routes ->
+    parse_rblock mleaf_parse hleaf_parse (block_body mt sets routes) =
+    Some (block_routes_json sets routes, mt_ns mt).
+  Proof.
+    intros Hmt Hdup Hsets Hroutes IH. destruct (block_steps mt sets routes Hmt Hdup Hsets Hroutes IH) as [E1 E2].
+    unfold parse_rblock. fold phandler. rewrite E1. cbn [obind]. exact E2.
+  Qed.
+
+  Lemma block_routes_json_eq sets routes :
+    block_routes_json sets routes =
+    routes_json mleaf hleaf mleaf_name mleaf_json hleaf_name hleaf_json sets routes.
+  Proof. unfold block_routes_json, routes_json. apply map_ext. intros [refs hs]. reflexivity. Qed.
+
+  Lemma handler_correct h : hok h = true -> phandler (hseg h) = Some (hjson h).
+  Proof.
+    induction h as [x|hs IH|mt sets routes IH] using handler_ind'; intro Hok.
+    - cbn [hseg handler_seg hjson handler_json]. destruct (hleaf_shape x) as (args & hb & body & E).
+      rewrite E. unfold phandler. cbn [parse_handler]. rewrite <- E.
+      destruct (hleaf_not_struct x) as [N1 N2].
+      apply String.eqb_neq in N1, N2. rewrite N1, N2.
+      rewrite (hleaf_eq x Hok). cbn [obind]. destruct (hleaf_obj x) as [l El]. rewrite El. reflexivity.
+    - cbn [hseg handler_seg hjson handler_json]. unfold phandler. cbn [parse_handler String.eqb Ascii.eqb Bool.eqb].
+      cbv iota. fold phandler. fold hseg. fold hjson.
+      rewrite (traverse_map _ hseg hjson).
+      + reflexivity.
+      + cbn in Hok. apply forallb_Forall in Hok. rewrite Forall_forall in *. intros h Hin. apply IH; auto.
+    - cbn [hok handler_ok] in Hok.
+      repeat (apply andb_true_iff in Hok; destruct Hok as [Hok ?]).
+      match goal with H : negb _ = true |- _ => apply negb_true_iff in H end.
+      cbn [hseg handler_seg hjson handler_json]. unfold phandler. cbn [parse_handler String.eqb Ascii.eqb Bool.eqb].
+      cbv iota. fold phandler. fold hseg. fold hjson.
+      change (traverse (parse_entry phandler) _) with
+        (traverse (parse_entry phandler) (block_body mt sets routes)).
+      destruct (block_steps mt sets routes) as [E1 E2]; auto.
+      rewrite E1. cbn [obind]. rewrite E2. cbn [obind fst snd]. rewrite block_routes_json_eq. reflexivity.
+  Qed.
+
+  (* ---- route blocks of servers / listener wrappers *)
+  Lemma rblock_correct (b : rblock mleaf hleaf) : rblock_ok mleaf hleaf mleaf_name mleaf_ok hleaf_ok b = true ->
+    parse_rblock mleaf_parse hleaf_parse (rblock_segs mleaf hleaf mleaf_seg hleaf_seg b) =
+    Some (routes_json mleaf hleaf mleaf_name mleaf_json hleaf_name hleaf_json (rb_sets _ _ b) (rb_routes _ _ b),
+          mt_ns (rb_mt _ _ b)).
+  Proof.
+    destruct b as [mt sets routes]. unfold rblock_ok. cbn [rb_mt rb_sets rb_routes]. intro Hok.
+    repeat (apply andb_true_iff in Hok; destruct Hok as [Hok ?]).
+    match goal with H : negb _ = true |- _ => apply negb_true_iff in H end.
+    change (rblock_segs mleaf hleaf mleaf_seg hleaf_seg (RBlock mt sets routes)) with (block_body mt sets routes).
+    rewrite block_correct; auto.
+    - rewrite block_routes_json_eq. reflexivity.
+    - match goal with H : forallb _ routes = true |- _ => rename H into Hr end.
+      revert Hr. generalize sets at 1. intros sets0 Hr.
+      induction routes as [|[refs hs] routes IHr]; constructor.
+      + cbn [snd]. apply Forall_forall. intros h _. apply handler_correct.
+      + cbn [forallb] in Hr. apply andb_true_iff in Hr. apply IHr. apply Hr.
+  Qed.
+
+  (* ---- printed segments are well-formed *)
+  Lemma set_seg_wf w il entries : forallb seg_wf entries = true -> seg_wf (set_seg w il entries) = true.
+  Proof.
+    intro H. unfold set_seg.
+    assert (Hb : seg_wf (Seg [w] true entries) = true) by (cbn; exact H).
+    destruct il; [|exact Hb]. destruct entries as [|[ws hb body] [|? ?]]; try exact Hb.
+    cbn [forallb] in H. rewrite andb_true_r in H. cbn [seg_wf] in *.
+    apply andb_true_iff in H. destruct H as [H H3]. apply andb_true_iff in H. destruct H as [_ H2].
+    now rewrite H2, H3.
+  Qed.
+
+  Lemma forallb_map_true {A B} (p : B -> bool) (g : A -> B) l :
+    Forall (fun a => p (g a) = true) l -> forallb p (map g l) = true.
+  Proof. induction 1; cbn; [reflexivity|]. now rewrite H, IHForall. Qed.
+
+  Lemma mseg_wf m : seg_wf (mseg m) = true.
+  Proof.
+    induction m as [x|il ms IH] using matcher_ind'; [apply mleaf_wf|].
+    cbn [mseg matcher_seg]. apply set_seg_wf. now apply forallb_map_true.
+  Qed.
+
+  Lemma msetseg_wf s : seg_wf (msetseg s) = true.
+  Proof.
+    destruct s as [[n il] ms]. cbn. apply set_seg_wf. apply forallb_map_true.
+    apply Forall_forall. intros m _. apply mseg_wf.
+  Qed.
+
+  Lemma block_body_wf mt sets routes :
+    Forall (fun r : routeT => Forall (fun h => seg_wf (hseg h) = true) (snd r)) routes ->
+    forallb seg_wf (block_body mt sets routes) = true.
+  Proof.
+    intro H. unfold block_body. rewrite !forallb_app. apply andb_true_iff; split; [|apply andb_true_iff; split].
+    - destruct mt; reflexivity.
+    - apply forallb_map_true. apply Forall_forall. intros s _. apply msetseg_wf.
+    - apply forallb_map_true. eapply Forall_impl; [|exact H]. intros [refs hs] Hr.
+      cbn [route_seg seg_wf snd] in *. fold hseg. now apply forallb_map_true.
+  Qed.
+
+  Lemma hseg_wf h : seg_wf (hseg h) = true.
+  Proof.
+    induction h as [x|hs IH|mt sets routes IH] using handler_ind'; [apply hleaf_wf| |].
+    - cbn [hseg handler_seg seg_wf]. fold hseg. now apply forallb_map_true.
+    - cbn [hseg handler_seg]. fold hseg.
+      change (seg_wf (Seg ["subroute"] true (block_body mt sets routes)) = true).
+      cbn [seg_wf]. now apply block_body_wf.
+  Qed.
+
+  Lemma rblock_segs_wf (b : rblock mleaf hleaf) :
+    forallb seg_wf (rblock_segs mleaf hleaf mleaf_seg hleaf_seg b) = true.
+  Proof.
+    destruct b as [mt sets routes].
+    change (forallb seg_wf (block_body mt sets routes) = true). apply block_body_wf.
+    apply Forall_forall. intros r _. apply Forall_forall. intros h _. apply hseg_wf.
+  Qed.
+
+  (* ---- servers, the layer4 app, the whole file *)
+  Notation serverT := (server mleaf hleaf).
+  Let sseg := server_seg mleaf hleaf mleaf_seg hleaf_seg.
+  Let sjson := server_json mleaf hleaf mleaf_name mleaf_json hleaf_name hleaf_json.
+  Let sok := server_ok mleaf hleaf mleaf_name mleaf_ok hleaf_ok.
+
+  Lemma server_correct (s : serverT) : sok s = true ->
+    parse_server mleaf_parse hleaf_parse (sseg s) = Some (sjson s).
+  Proof.
+    destruct s as [listen b]. unfold sok, server_ok. cbn [sv_listen sv_block]. intro Hok.
+    destruct listen as [|a listen]; [discriminate|].
+    unfold sseg, server_seg, parse_server. cbn [sv_listen sv_block].
+    rewrite (rblock_correct b Hok). reflexivity.
+  Qed.
+
+  Theorem adapt_structural_gen (c : config mleaf hleaf) :
+    config_ok mleaf hleaf mleaf_name mleaf_ok hleaf_ok c = true ->
+    adapt mleaf_parse hleaf_parse (print_caddyfile mleaf hleaf mleaf_seg hleaf_seg c) =
+    Some (to_json mleaf hleaf mleaf_name mleaf_json hleaf_name hleaf_json c).
+  Proof.
+    intro Hok. unfold adapt, print_caddyfile.
+    assert (Hwf : forallb seg_wf [config_seg mleaf hleaf mleaf_seg hleaf_seg c] = true).
+    { cbn [forallb]. rewrite andb_true_r. unfold config_seg. cbn [seg_wf].
+      apply forallb_map_true. apply Forall_forall. intros servers _. cbn [seg_wf].
+      apply forallb_map_true. apply Forall_forall. intros s _.
+      unfold server_seg. cbn [seg_wf]. rewrite rblock_segs_wf. now destruct (sv_listen _ _ s). }
+    pose proof (parse_file_print _ Hwf) as Hp. unfold print_segs in Hp. cbn [flat_map] in Hp.
+    rewrite app_nil_r in Hp. rewrite Hp. cbn [obind].
+    unfold config_ok in Hok. destruct c as [|b bs]; [discriminate|].
+    unfold config_seg. cbn [map]. unfold parse_layer4_blocks.
+    change (Seg ["layer4"] true (map (server_seg mleaf hleaf mleaf_seg hleaf_seg) b)
+              :: map (fun servers => Seg ["layer4"] true (map (server_seg mleaf hleaf mleaf_seg hleaf_seg) servers)) bs)
+      with (map (fun servers => Seg ["layer4"] true (map sseg servers)) (b :: bs)).
+    rewrite (traverse_map _ (fun servers => Seg ["layer4"] true (map sseg servers)) (map sjson)).
+    - cbn [obind]. unfold to_json. rewrite concat_map. reflexivity.
+    - apply forallb_Forall in Hok. eapply Forall_impl; [|exact Hok]. intros servers Hs. cbv beta.
+      apply traverse_map. apply forallb_Forall in Hs. eapply Forall_impl; [|exact Hs].
+      intros s. apply server_correct.
+  Qed.
+
+  (* the listener-wrapper form *)
+  Theorem adapt_lw_structural_gen (b : rblock mleaf hleaf) (others sites : list seg) :
+    rblock_ok mleaf hleaf mleaf_name mleaf_ok hleaf_ok b = true ->
+    forallb seg_wf others = true -> forallb seg_wf sites = true ->
+    forallb (fun s => negb (is_layer4 s)) others = true ->
+    adapt_lw mleaf_parse hleaf_parse (print_caddyfile_lw mleaf hleaf mleaf_seg hleaf_seg b others sites) =
+    Some [lw_json mleaf hleaf mleaf_name mleaf_json hleaf_name hleaf_json b].
+  Proof.
+    intros Hok Ho Hs Hn. unfold adapt_lw, print_caddyfile_lw.
+    rewrite parse_file_print.
+    2:{ unfold lw_file_segs. cbn [forallb seg_wf]. rewrite rblock_segs_wf, Ho, Hs. reflexivity. }
+    cbn [obind]. unfold lw_file_segs. cbn [filter is_layer4 seg_name seg_words String.eqb Ascii.eqb Bool.eqb].
+    replace (filter is_layer4 others) with (@nil seg).
+    2:{ clear - Hn. induction others as [|o others IH]; [reflexivity|].
+        cbn [forallb filter] in *. apply andb_true_iff in Hn. destruct Hn as [H1 H2].
+        apply negb_true_iff in H1. rewrite H1. now apply IH. }
+    cbn [traverse parse_lw]. rewrite (rblock_correct b Hok). reflexivity.
+  Qed.
+End Structural.
+
+(* ------------------------------------------------------------------ array-shaped matchers: JSON round trip *)
+(* MatchNot.UnmarshalJSON decodes the array into []caddy.ModuleMap (a Go map per element: keys
+   sorted on output, raw values kept), MarshalJSON encodes that slice. *)
+Definition module_map_of (j : json) : option (list (string * json)) :=
+  match j with JObj l => Some (sort_kv l) | _ => None end.
+Definition not_unmarshal (j : json) : option (list (list (string * json))) :=
+  match j with JArr l => traverse module_map_of l | _ => None end.
+Definition not_marshal (sets : list (list (string * json))) : json := JArr (map JObj sets).
+
+Fixpoint keys_sorted {V} (l : list (string * V)) : bool :=
+  match l with
+  | [] => true
+  | (k, _) :: r => match r with [] => true | (k', _) :: _ => String.ltb k k' end && keys_sorted r
+  end.
+
+Lemma ltb_leb a b : String.ltb a b = true -> String.leb a b = true.
+Proof. unfold String.ltb, String.leb. destruct (String.compare a b); congruence. Qed.
+
+Lemma sort_kv_sorted {V} (l : list (string * V)) : keys_sorted l = true -> sort_kv l = l.
+Proof.
+  induction l as [|[k v] l IH]; intro H; [reflexivity|].
+  cbn [keys_sorted] in H. apply andb_true_iff in H. destruct H as [H1 H2].
+  cbn [sort_kv]. rewrite (IH H2). destruct l as [|[k' v'] l]; [reflexivity|].
+  cbn [insert_kv]. now rewrite (ltb_leb _ _ H1).
+Qed.
+
+Definition sets_json_wf (j : json) : bool :=
+  match j with
+  | JArr l => forallb (fun e => match e with JObj m => keys_sorted m | _ => false end) l
+  | _ => false
+  end.
+
+Theorem not_json_roundtrip j : sets_json_wf j = true ->
+  exists sets, not_unmarshal j = Some sets /\ not_marshal sets = j.
+Proof.
+  destruct j as [| | | |l|]; try discriminate. cbn [sets_json_wf]. intro H.
+  induction l as [|e l IH].
+  - exists []. split; reflexivity.
+  - cbn [forallb] in H. apply andb_true_iff in H. destruct H as [H1 H2].
+    destruct (IH H2) as (sets & U & M). destruct e as [| | | | |m]; try discriminate.
+    exists (m :: sets). cbn [not_unmarshal traverse module_map_of] in *.
+    rewrite (sort_kv_sorted _ H1), U. split; [reflexivity|].
+    unfold not_marshal in *. cbn [map]. now inversion M.
+Qed.
+
+Theorem not_struct_roundtrip sets : forallb keys_sorted sets = true ->
+  not_unmarshal (not_marshal sets) = Some sets.
+Proof.
+  intro H. unfold not_marshal, not_unmarshal. rewrite (traverse_map _ JObj (fun s => s)); [now rewrite map_id|].
+  apply forallb_Forall in H. eapply Forall_impl; [|exact H]. intros s Hs. cbn. now rewrite sort_kv_sorted.
 Qed.
